@@ -1,7 +1,7 @@
-(** Classifiers of the known findings of C14's multi-client half (one per
-    `known:` line of /verif/known-findings.txt) and the step-level classes the
+(** Classifier of the known finding of C14's multi-client half (the `known:` line
+    recreated-lineage of /verif/known-findings.txt) and the step-level class the
     run-level theorems exclude. *)
-From Rocfl Require Import Base.Bytes Model.VersionNum Model.Known Model.MultiClient.
+From Rocfl Require Import Base.Bytes Model.VersionNum Model.MultiClient.
 Open Scope N_scope.
 
 (** known: property=C14 id=recreated-lineage.
@@ -26,24 +26,9 @@ Definition c14_recreated_lineage (st : mc) (c : N) (id : bytes) : bool :=
 Definition step_known (st : mc) (c : N) (o : op) : bool :=
   match o with Commit id => c14_recreated_lineage st c id | _ => false end.
 
-(** known: property=C14 id=vnum-overflow ([Known.c14_overflow]) as it shows at
-    the level of operations: creating an object with a padding width above 10,
-    or cloning an object whose head is in the overflow class. *)
-Definition step_overflow (st : mc) (c : N) (o : op) : bool :=
-  match o with
-  | New _ w => 10 <? w
-  | Stage id _ =>
-      match sget st c id with
-      | Some _ => false
-      | None => match mget st id with Some ob => c14_overflow (o_head ob) | None => false end
-      end
-  | _ => false
-  end.
+Definition step_clean (st : mc) (c : N) (o : op) : bool := negb (step_known st c o).
 
-Definition step_clean (st : mc) (c : N) (o : op) : bool :=
-  negb (step_known st c o) && negb (step_overflow st c o).
-
-(** no step of the run is in a known class *)
+(** no step of the run is in the known class *)
 Fixpoint run_clean (dbg : bool) (st : mc) (es : list event) : bool :=
   match es with
   | [] => true
